@@ -284,7 +284,7 @@ def _dunder(E, obj, name, args):
     cf = E.reg.class_file(obj.cls)
     if not cf:
         return False, None
-    res = E.repo.find_method(cf, obj.cls, name)
+    res = E.repo.find_method(cf, E.reg.source_class(obj.cls), name)
     if not res:
         return False, None
     return True, E.call_func(FuncV(res[0], res[1], res[2], obj), list(args), {})
